@@ -89,26 +89,82 @@ theorem C04_cancel_never_succeeds {c : Conf} (h : Reach C O st0 script picks c) 
   · exact Or.inr (hh.checked (Or.inr hd) hf)
   · exact Or.inl (hh.doneFirst hd hf)
 
-/-- **after cancellation every I/O operation fails** (the connection's deadline is in the
-past): one step from a cancelled configuration never logs a successful read or write -/
-theorem C04_cancel_io_fails (c : Conf) (hc : O.cancel c.tr = true) (e : Ev)
-    (he : (step C O c).tr = e :: c.tr) :
+/-- **after cancellation every I/O operation fails** (the watcher moves both deadlines of the
+connection into the past): one step from a cancelled configuration never logs a successful
+read or write -/
+theorem C04_cancel_io_fails (c : Conf) (hr : O.dlRd = true) (hw : O.dlWr = true)
+    (hc : O.cancel c.tr = true) (e : Ev) (he : (step C O c).tr = e :: c.tr) :
     e ≠ .hdrOut true ∧ (∀ k, e ≠ .rd k .got) ∧ (∀ st fs, e ≠ .listOut st fs true) ∧ e ≠ .listAbort true := by
   revert he
   step_all
   all_goals intro he
   all_goals first
     | exact absurd he.symm (List.cons_ne_self _ _)
-    | (injection he with h1 h2; subst h1; clear h2; simp_all; done)
+    | (injection he with h1 h2; subst h1; clear h2; simp_all [rdFails, wrFails]; done)
 
-/-- **no panic**: the machine never reaches the `crash` point -/
-theorem C04_no_panic {c : Conf} (h : Reach C O st0 script picks c) : c.pc ≠ .crash :=
-  (invS_reach h).crash
+/-! ### blocked in a read, blocked in a write -/
 
 /-- the quiet oracle: nothing fails, nothing is cancelled, callbacks succeed with empty masks -/
 def quiet : Oracle :=
   { neg := fun _ _ _ => ⟨0, false, false⟩, list := fun _ _ _ => ⟨false, false⟩,
-    parseErr := fun _ _ _ => false, fault := fun _ => false, cancel := fun _ => false }
+    parseErr := fun _ _ _ => false, fault := fun _ => false, cancel := fun _ => false,
+    block := fun _ => false, dlRd := true, dlWr := true }
+
+
+
+/-- which deadlines the named setter moves: (read, write) -/
+def dlOfSetter (s : String) : Bool × Bool :=
+  if s == "SetDeadline" then (true, true)
+  else if s == "SetReadDeadline" then (true, false)
+  else if s == "SetWriteDeadline" then (false, true)
+  else (false, false)
+
+/-- deadlines moved by a list of setter calls -/
+def dlOfSetters (l : List String) : Bool × Bool :=
+  l.foldl (fun a s => (a.1 || (dlOfSetter s).1, a.2 || (dlOfSetter s).2)) (false, false)
+
+/-- tie to the source: the calls `conn.Set…Deadline(aLongTimeAgo)` in `setDeadline` of
+session.go (read from its AST), taken together, move the read **and** the write deadline — the
+hypotheses `O.dlRd = true`, `O.dlWr = true` of `C04_cancel_progress` -/
+theorem C04_gen_deadline : ∃ l, Generated.C04.deadlineSetters = some l ∧ dlOfSetters l = (true, true) :=
+  ⟨_, rfl, by decide⟩
+
+/-- **cancellation ends a blocked read and a blocked write alike**: if the context watcher
+moves both deadlines, a call that is blocked — in a read because the peer is silent
+(`wr = false`), or in a write because the peer does not read (`wr = true`) — never stays blocked
+once the context is done: the `hung` point is only reached with a context that was never
+cancelled -/
+theorem C04_cancel_progress {c : Conf} (h : Reach C O st0 script picks c)
+    (hr : O.dlRd = true) (hw : O.dlWr = true) {wr : Bool} (hh : c.pc = .hung wr) :
+    O.cancel c.tr = false := by
+  have := (invU_reach h).hung wr hh
+  cases wr <;> simp_all
+
+/-- one step: a blocked operation whose deadline was moved fails as soon as the context is done:
+the failure event of that operation is logged and the run ends in `fail io` -/
+theorem C04_blocked_unblocks (c : Conf) (op : IoOp) (hpc : c.pc = .blocked op)
+    (hc : O.cancel c.tr = true) (hd : (if op.wr then O.dlWr else O.dlRd) = true) :
+    (step C O c).pc = .fail .io ∧ ∃ e, (step C O c).tr = e :: c.tr ∧ e.faulty = true := by
+  unfold step
+  cases op <;> simp_all [unblock, IoOp.wr, Ev.faulty]
+
+/-- **the write deadline is needed** (negation witness; the seeded change that turned
+`SetDeadline` into `SetReadDeadline`): if the watcher only moves the read deadline, a run whose
+first write blocks and whose context is cancelled while it is blocked never returns -/
+theorem C04_cancel_progress_needs_write_deadline :
+    ∃ (O : Oracle) (c : Conf), O.dlRd = true ∧ Reach [] O 0 [] [] c ∧ c.pc = .hung true ∧ O.cancel c.tr = true :=
+  ⟨{ quiet with block := fun k => k == 0, cancel := fun tr => tr.any (fun e => e == .blocked .hdrOut), dlWr := false },
+   _, rfl, ⟨4, rfl⟩, by decide, by decide⟩
+
+/-- … and the read deadline for a blocked read (a receiver whose peer is silent) -/
+theorem C04_cancel_progress_needs_read_deadline :
+    ∃ (O : Oracle) (c : Conf), O.dlWr = true ∧ Reach [] O bReceived [] [] c ∧ c.pc = .hung false ∧ O.cancel c.tr = true :=
+  ⟨{ quiet with block := fun k => k == 0, cancel := fun tr => tr.any (fun e => e == .blocked .hdrIn), dlRd := false },
+   _, rfl, ⟨4, rfl⟩, by decide, by decide⟩
+
+/-- **no panic**: the machine never reaches the `crash` point -/
+theorem C04_no_panic {c : Conf} (h : Reach C O st0 script picks c) : c.pc ≠ .crash :=
+  (invS_reach h).crash
 
 /-! ### non-vacuity -/
 
